@@ -371,6 +371,13 @@ def run_shard(prop: str, tier: str, seed: int, shard: int, nshards: int, out: st
                 )
             ctx.frozen = False
     finally:
+        try:
+            from core import backends
+
+            for f in list(backends._factories.values()):
+                f.close()
+        except Exception:
+            pass
         shutil.rmtree(ctx.scratch, ignore_errors=True)
     result.update(
         evaluations=ctx.evaluations,
